@@ -56,6 +56,76 @@ def op_key(op):
     return json.dumps(op, sort_keys=True)
 
 
+# ------------------------------------------------------------------------------------------------ argument forms
+# The NOMINAL call (what the model and the oracle see) is independent of how the caller spells its arguments.  Each call
+# has one argument whose Python form is varied: Wn of filter_data, q of decimate_data, bp of detrend_data.  Every form
+# must give the same result, and no argument object may be modified by the call.
+F_ALPHA = [("filt", 2.0, 3, "lowpass"), ("filt", 3.0, 2, "highpass"), ("filt", [1.0, 4.0], 2, "bandpass"), ("filt", [2.0, 6.0], 2, "bandstop"),
+           ("filt", [0.5, 2.5], 3, "bandpass")]
+
+
+def forms_of(op):
+    """Names of the forms applicable to the call's variable argument; the first is the default (used by old corpus cases)."""
+    if op[0] == "filt":
+        wn = op[1]
+        if isinstance(wn, (list, tuple)):
+            integral = all(float(w) == int(w) for w in wn)
+            return ["tuple", "list", "f64arr"] + (["intlist", "intarr"] if integral else [])
+        return ["float", "npfloat", "arr0"] + (["int", "npint", "intarr0"] if float(wn) == int(wn) else [])
+    if op[0] == "dec":
+        return ["int", "int64", "int32"]
+    if op[0] == "det" and isinstance(op[1].get("bp"), (list, tuple)):
+        return ["list", "tuple", "intarr"]
+    return [None]
+
+
+def build_arg(op, form):
+    v = op[1] if op[0] in ("filt", "dec") else op[1]["bp"]
+    return {
+        "tuple": lambda: tuple(v), "list": lambda: list(v), "f64arr": lambda: np.array(v, dtype=np.float64),
+        "intlist": lambda: [int(w) for w in v], "intarr": lambda: np.array([int(w) for w in v]),
+        "float": lambda: float(v), "npfloat": lambda: np.float64(v), "arr0": lambda: np.array(float(v)),
+        "int": lambda: int(v), "npint": lambda: np.int64(int(v)), "intarr0": lambda: np.array(int(v)),
+        "int64": lambda: np.int64(v), "int32": lambda: np.int32(v),
+    }[form]()
+
+
+def pick_form(rng, op):
+    fs_ = forms_of(op)
+    if "f64arr" in fs_ and rng.random() < 0.35:      # the forms that can alias the caller's own array get more weight
+        return "f64arr"
+    if "arr0" in fs_ and rng.random() < 0.2:
+        return "arr0"
+    return rng.choice(fs_)
+
+
+def snapshot(x):
+    if isinstance(x, np.ndarray):
+        return ("nd", x.dtype.str, x.shape, x.tobytes())
+    if isinstance(x, (list, tuple)):
+        return (type(x).__name__, tuple((type(e).__name__, e) for e in x))
+    return None
+
+
+class Params:
+    """The argument objects handed to the calls of one history (or of two successive setups): ONE object per (call, form),
+    re-used whenever the same call recurs - across the datasets of a PreGER object, across repeated calls, across setups.
+    A bit-exact snapshot is kept beside each object: no call may modify what the caller passed."""
+
+    def __init__(self):
+        self.objs = {}
+
+    def get(self, op, form):
+        key = (op_key(op), form)
+        if key not in self.objs:
+            obj = build_arg(op, form)
+            self.objs[key] = (obj, snapshot(obj))
+        return self.objs[key][0]
+
+    def modified(self):
+        return ["%s as %s: now %r" % (k[0], k[1], o) for k, (o, snap) in self.objs.items() if snap is not None and snapshot(o) != snap]
+
+
 def coq_kwval(v):
     if v is None:
         return "VNone"
@@ -376,15 +446,16 @@ class Impl:
         else:
             self.obj = MultiSetup_PreGER(fs=cfg.fs_arg(), ref_ind=self.user_refs, datasets=self.user_list)
 
-    def call(self, op, idx):
+    def call(self, op, idx, form=None, params=None):
         o = self.obj
+        form = form or forms_of(op)[0]
+        params = params if params is not None else Params()
         if op[0] == "dec":
-            o.decimate_data(op[1], **op[2])
+            o.decimate_data(params.get(op, form), **op[2])
         elif op[0] == "det":
-            o.detrend_data(**op[1])
+            o.detrend_data(**(dict(op[1], bp=params.get(op, form)) if form is not None else op[1]))
         elif op[0] == "filt":
-            wn = tuple(op[1]) if isinstance(op[1], (list, tuple)) else op[1]
-            o.filter_data(Wn=wn, order=op[2], btype=op[3])
+            o.filter_data(Wn=params.get(op, form), order=op[2], btype=op[3])
         elif op[0] == "rb":
             o.rollback()
         else:
@@ -558,10 +629,15 @@ def check_alg(ctx, rec, cfg, alg, since, mlast, site, case, when, name=None):
             rec.fail("correspondence", "%s: bound data/fs differ from the model's binding" % site, case, "C14:%s:corr-binding" % cfg.cls)
 
 
-def run_history(ctx, rec, cfg, ops, model, all_steps):
+def run_history(ctx, rec, cfg, ops, model, all_steps, forms=None, params=None, setup_no=1, repeat=1):
     """model: list (one per model variant) of lists of parsed states: [after construction, after op 1, ...] when all_steps,
-    else [final state].  Returns True when the history was judged to its end."""
-    case = dict(cfg.desc(), ops=[list(o) for o in ops])
+    else [final state].  forms: the Python form of each call's variable argument (None = default forms); params: the
+    argument objects (shared between the setups of a repeat_setups > 1 case).  Returns True when the history was judged to its end."""
+    forms = list(forms) if forms else [forms_of(o)[0] for o in ops]
+    params = params if params is not None else Params()
+    case = dict(cfg.desc(), ops=[list(o) for o in ops], forms=forms, repeat_setups=repeat)
+    if setup_no > 1:
+        case["failing_setup"] = setup_no
     try:
         im = Impl(cfg)
     except Exception as e:
@@ -586,11 +662,15 @@ def run_history(ctx, rec, cfg, ops, model, all_steps):
             mst = [m[0] for m in model] if i == len(ops) else None
         undoc = undocumented(op)
         try:
-            alg = im.call(op, i)
+            alg = im.call(op, i, forms[i - 1], params)
             raised = None
         except Exception as e:
             raised = e
         step_case = dict(case, step=i)
+        changed = params.modified()
+        if changed and "argument-modified" not in reported:
+            reported.add("argument-modified")
+            rec.fail("oracle", "%s modified an argument object the caller passed (%s)" % (site, "; ".join(changed)[:300]), step_case, "C14:%s:argument-modified" % site)
         if raised is not None:
             if not undoc and not isinstance(want, Exception):
                 rec.fail("oracle", "%s(%s) raised %s: %s; every documented keyword must be accepted" % (site, json.dumps(op[1:]), type(raised).__name__, str(raised)[:200]),
@@ -638,8 +718,8 @@ def run_history(ctx, rec, cfg, ops, model, all_steps):
 def model_eval(ctx, letters, jobs, chunk):
     """jobs: list of (cfg, ops, all_steps).  Returns for each job the list over model variants of parsed state lists."""
     groups = {}
-    for j, (cfg, ops, all_steps) in enumerate(jobs):
-        groups.setdefault((id(cfg), all_steps), []).append(j)
+    for j, job in enumerate(jobs):
+        groups.setdefault((id(job[0]), job[2]), []).append(j)
     exprs, where = [], []
     for (_, all_steps), idxs in groups.items():
         cfg = jobs[idxs[0]][0]
@@ -689,7 +769,10 @@ def run(ctx):
     ctx.extra["rule"] = ("histories = every word of length 1..L (L=3 quick, 4 thorough) over 10-letter alphabets of calls (add_algorithms both with a fresh instance and with the instance added last), on fixed and random "
                          "SingleSetup / MultiSetup_PreGER configurations (1-3 datasets, 2-5 channels, any reference layout), plus sampled words of "
                          "length 5 checked after every call, plus a malformed stream (undocumented keywords, invalid reference layouts) and calls SciPy refuses (short records, unknown ftype/type/btype, Wn above Nyquist: the call must change nothing and the history continues); fs is handed over as float, Python int or numpy int64; a history is "
-                         "non-trivial when it contains at least one data-changing call; distinct by hash of (configuration, history)")
+                         "non-trivial when it contains at least one data-changing call; distinct by hash of (configuration, history, argument forms); "
+                         "every call's variable argument (Wn, q, bp) is handed over in a form drawn per call (float/int/numpy scalar/0-d array/tuple/list/int ndarray/float64 ndarray), "
+                         "the same object re-used when the call recurs, plus a block of every filter call x every form x {single call, repeated call, after decimation, across rollback} "
+                         "on SingleSetup and PreGER with 2 and 3 datasets, also on two successive setups sharing the argument objects; no argument object may be modified")
     ctx.assumptions += [
         "SciPy is not modelled: data are symbolic terms; assumed shape contract rows(decimate(x,q)) = ceil(rows(x)/q), detrend/sosfiltfilt keep the shape (checked on every evaluated term)",
         "the harness evaluates model terms and the oracle's reference with scipy.signal.decimate/detrend/butter/sosfiltfilt of the installed SciPy (axis=0), arrays compared at 1e-9*scale, attributes at 1e-12",
@@ -698,12 +781,14 @@ def run(ctx):
     ]
     # ---- corpus (failing histories of the repaired PreGER defects) and replay
     jobs = []
+    given = {}    # job index -> (argument forms, number of successive setups sharing the argument objects), when prescribed
     files = [ctx.replay] if ctx.replay else sorted(glob.glob(os.path.join(VERIF, "corpus", "C14", "*.json")))
     for fn in files:
         c = json.load(open(fn))
         c = c.get("case", c)
         cfg = Cfg(c["cls"] == "SingleSetup", c["fs0"], c["shapes"], c["refs"], c["data_seed"], None, c.get("fs_kind", "float"))
         ops = [tuple(o) for o in c["ops"]]
+        given[len(jobs)] = (c.get("forms"), int(c.get("repeat_setups", 1)))
         jobs.append((cfg, ops, True))
         ctx.hist("source", "corpus")
     ncorpus = len(jobs)
@@ -747,14 +832,42 @@ def run(ctx):
             jobs.append((cfg, w, True))
         for k, (shapes, refs) in enumerate([([(800, 3)], [[1, 1]]), ([(800, 3), (810, 2)], [[0], [2]]), ([(800, 4)], [[0, 4]])]):
             jobs.append((Cfg(False, 1000.0, shapes, refs, 9500 + k, None), [("add",)], True))
+        # argument forms: every filter call x every form of Wn (float / int / numpy scalar / 0-d array / tuple / list / int
+        # ndarray / float64 ndarray), q as int and numpy ints, bp as list / tuple / ndarray; the SAME argument object used for
+        # all datasets of a PreGER object, for a repeated call, and for two successive setups
+        fcfgs = [Cfg(True, 100, [(800, 3)], [], 111, None, "int"),
+                 Cfg(False, 100.0, [(800, 3), (840, 4)], [[2, 0], [1, 3]], 112, None, "float"),
+                 Cfg(False, 120, [(810, 5), (768, 2), (900, 4)], [[4, 1, 2], [0], [3]], 113, None, "int64")]
+        dec2, dec3, detbp = ("dec", 2, {}), ("dec", 3, {"ftype": "fir"}), ("det", {"type": "linear", "bp": [100, 300]})
+        for cfg in fcfgs:
+            for f in F_ALPHA:
+                for fm in forms_of(f):
+                    for w, fms, rpt in (([f], [fm], 2), ([f, f], [fm, fm], 1), ([dec2, f, ("add",)], ["int64", fm, None], 1),
+                                        ([f, ("rb",), f, ("readd",)], [fm, None, fm, None], 2)):
+                        given[len(jobs)] = (fms, rpt)
+                        jobs.append((cfg, w, True))
+            for op in (dec2, dec3, detbp):
+                for fm in forms_of(op):
+                    given[len(jobs)] = ([fm, fm, None], 2)
+                    jobs.append((cfg, [op, op, ("add",)], True))
+    # the form of every other call's argument is drawn at random; within a history the same call re-uses the same object
+    jobs = [(cfg, ops, flag) + (given[j] if j in given and given[j][0] else ([pick_form(ctx.rng, o) for o in ops], given.get(j, (None, 1))[1]))
+            for j, (cfg, ops, flag) in enumerate(jobs)]
     import time
     t0 = time.time()
     model = model_eval(ctx, letters, jobs, ctx.n(40, 60))
     ctx.extra["model_eval_s"] = round(time.time() - t0, 1)
     t1 = time.process_time()
-    for j, ((cfg, ops, all_steps), m) in enumerate(zip(jobs, model)):
-        judged = run_history(ctx, rec, cfg, ops, m, all_steps)
-        ctx.count(dict(cfg.desc(), ops=[list(o) for o in ops]), nontrivial=any(o[0] in ("dec", "det", "filt") for o in ops))
+    for j, ((cfg, ops, all_steps, forms, repeat), m) in enumerate(zip(jobs, model)):
+        params = Params()
+        for k in range(repeat):      # repeat > 1: successive fresh setups are driven with the SAME argument objects
+            judged = run_history(ctx, rec, cfg, ops, m, all_steps, forms, params, k + 1, repeat)
+        ctx.count(dict(cfg.desc(), ops=[list(o) for o in ops], forms=forms, repeat=repeat), nontrivial=any(o[0] in ("dec", "det", "filt") for o in ops))
+        for o_, fm in zip(ops, forms):
+            if fm is not None:
+                ctx.hist("argument form", "%s:%s" % ({"filt": "Wn", "dec": "q", "det": "bp"}[o_[0]], fm))
+        if repeat > 1:
+            ctx.hist("source", "same argument objects on %d successive setups" % repeat)
         ctx.hist("class", cfg.cls)
         ctx.hist("length", len(ops))
         ctx.hist("datasets", len(cfg.shapes))
